@@ -167,6 +167,15 @@ def body(ch, ctx):
                 ok = f.bin == got and f.calc_bin() == got and type(f.bin) is type(got)
                 ctx.check(ok, "feature-bin-differs-from-bins", dict(fmt=fmt), start=start, end=end,
                           feature_bin=repr(f.bin)[:100], bins=repr(got)[:100])
+                # coordinates handed over as text or as a float holding an integer: the same feature, the same bin
+                if start >= 0:
+                    for form, (a, b) in (("str", (str(start), str(end))), ("float", (float(start), float(end)))):
+                        if form == "float" and (int(a) != start or int(b) != end):
+                            continue
+                        h = Feature(seqid="c", start=a, end=b)
+                        ctx.check((h.start, h.end, h.bin) == (start, end, got) and type(h.start) is int and h.astuple()[-1] == got,
+                                  "feature-bin-differs-from-bins", dict(fmt=fmt, coordinates_given_as=form), start=start, end=end,
+                                  feature=repr((h.start, h.end, h.bin))[:100], bins=repr(got)[:100])
                 # the bin that goes into the database follows the coordinates the feature has when it is stored
                 g2 = Feature(seqid="c", start=1, end=1)
                 g2.start, g2.end = start, end
